@@ -278,7 +278,9 @@ PROPS['C12'] = {
                  'whenever the translation reaches a built-in type whose spelling uses a helper, the helper has been recorded; plus contracts on '
                  'RustType::contains_type / SpecialRustType::contains_type / id, on which Scala\'s alias decision rests; plus Verus contracts on the Python class '
                  'writers Python::write_field, add_common_imports (verbatim, unit opt_python) and write_struct, add_type_var, handle_model_config (verbatim, unit pyclass): every pydantic / '
-                 'typing name their text uses has been recorded for the import block',
+                 'typing name their text uses has been recorded for the import block; and on the two writers that turn a recorded flag into text - TypeScript::end_file '
+                 '(unit opt_ts: something recorded => the ReviverFunc declaration is written) and Swift::end_file / get_codable_contents / write_codable (unit swiftvoid: flag set, '
+                 'one file => the CodableVoid declaration is written)',
     'level_text': 'For every type expression, configuration and generic scope: after format_type answers Ok, Go has recorded the import of "time" if '
                   'the expression reaches OffsetDateTime; TypeScript has recorded `Date` for the ReviverFunc / ReplacerFunc footer if it reaches OffsetDateTime; Swift has raised the CodableVoid flag if it reaches (); Python has recorded typing.List / '
                   'typing.Optional / typing.Dict / datetime.datetime for every sequence / Option / map / OffsetDateTime it reaches - "reaches" meaning '
